@@ -11,6 +11,7 @@ mod p03;
 mod p04;
 mod p05;
 mod p06;
+mod p07;
 mod p17;
 mod p18;
 mod p19;
@@ -29,6 +30,16 @@ fn main() {
         usage();
     }
     let prop = args[1].clone();
+    if prop == "ZF" {
+        // debugging aid: dverif ZF <file> [origin-text]
+        let t = std::fs::read(&args[2]).expect("read");
+        let origin = args.get(3).map(|o| { use std::str::FromStr; domain::base::Name::<Vec<u8>>::from_str(o).unwrap().as_slice().to_vec() });
+        match p06::read_zonefile(&t, origin.as_deref(), true) {
+            Ok(v) => for r in v { println!("{} class {} ttl {} type {} rdata {}", refimpl::wire::name_text(&r.0), r.1, r.2, r.3, ctx::hex(&r.4)); },
+            Err(e) => println!("ERR {}", e),
+        }
+        return;
+    }
     let mut tier = Tier::Quick;
     let mut seed = 1u64;
     let mut shard = 0u64;
@@ -81,6 +92,7 @@ fn main() {
         "C04" => p04::run(&mut c),
         "C05" => p05::run(&mut c),
         "C06" => p06::run(&mut c),
+        "C07" => p07::run(&mut c),
         "C17" => p17::run(&mut c),
         "C18" => p18::run(&mut c),
         "C19" => p19::run(&mut c),
